@@ -58,6 +58,13 @@ func ghost_emitted(eb *extension.AsyncEventBroker[event.MessageMetadata]) vcSeq[
 //@        vcSeqAt(vcElemsOf(mb.messages), a) != nil && vcSeqAt(vcElemsOf(mb.messages), a).mailbox == mb
 
 // The loaded list is what the index file holds (ids and seen flags, in order).
+//@ pred spec_entriesMatchA(mb *mbox) bool =
+//@     (forall a int :: { vcSeqAt(vcElemsOf(mb.messages), a) } vcOff(mb.messages) <= a && a < vcOff(mb.messages)+len(mb.messages) ==>
+//@        vcSeqAt(vcElemsOf(mb.messages), a).Fid == vcSeqAt(ghost_idxIDs(mb.indexPath), a-vcOff(mb.messages)) &&
+//@        vcSeqAt(vcElemsOf(mb.messages), a).Fseen == vcSeqAt(ghost_idxSeen(mb.indexPath), a-vcOff(mb.messages)))
+//@ pred spec_entriesMatchB(mb *mbox) bool =
+//@     (forall i int :: { vcSeqAt(ghost_idxIDs(mb.indexPath), i) } 0 <= i && i < len(mb.messages) ==>
+//@        vcSeqAt(ghost_idxIDs(mb.indexPath), i) == vcSeqAt(vcElemsOf(mb.messages), vcOff(mb.messages)+i).Fid)
 //@ pred spec_loaded(mb *mbox) bool = mb.indexLoaded && spec_listOK(mb) && len(mb.messages) == spec_idxN(mb.indexPath) &&
 //@     (forall a int :: { vcSeqAt(vcElemsOf(mb.messages), a) } vcOff(mb.messages) <= a && a < vcOff(mb.messages)+len(mb.messages) ==>
 //@        vcSeqAt(vcElemsOf(mb.messages), a).Fid == vcSeqAt(ghost_idxIDs(mb.indexPath), a-vcOff(mb.messages)) &&
@@ -66,17 +73,61 @@ func ghost_emitted(eb *extension.AsyncEventBroker[event.MessageMetadata]) vcSeq[
 //@        vcSeqAt(ghost_idxIDs(mb.indexPath), i) == vcSeqAt(vcElemsOf(mb.messages), vcOff(mb.messages)+i).Fid)
 
 // Object invariant of a mailbox handle: once the index is loaded the list is what the file holds.
-//@ pred spec_mbInv(mb *mbox) bool = mb != nil && mb.store != nil && (mb.indexLoaded ==> spec_loaded(mb))
+//@ pred spec_mbInv(mb *mbox) bool = mb != nil && mb.store != nil && (mb.indexLoaded ==> spec_loaded(mb)) &&
+//@     (!mb.indexLoaded ==> spec_listOK(mb) && len(mb.messages) == 0 && cap(mb.messages) == 0)
 
-// readIndex: ASSUMED (gob round trip: the k-th decoded record carries the exported fields of the k-th
-// encoded message).  A missing index is an empty mailbox.
-//@ func (*mbox).readIndex
+// Reading the index back.  ASSUMED (gob round trip, declared here because it speaks about *Message):
+// decoding a complete index stream yields first the mailbox name, then for k = 1, 2, … the record of
+// the k-th listed message (its exported fields: id and seen flag as held in ghost_idxIDs / ghost_idxSeen),
+// and io.EOF exactly at the end of the stream.
+func ghost_rpath(r io.Reader) string      { panic("ghost") }
+func ghost_decpath(d *gob.Decoder) string { panic("ghost") }
+func ghost_decpos(d *gob.Decoder) int     { panic("ghost") }
+func ghost_idxName(p string) string       { panic("ghost") }
+
+//@ func spec_decoded
+//@   inline
+func spec_decoded(path string, k int, v any) bool {
+	if s, ok := v.(*string); ok {
+		return s != nil && (k != 0 || *s == ghost_idxName(path))
+	}
+	if m, ok := v.(*Message); ok {
+		return m != nil && (k < 1 || (m.Fid == vcSeqAt(ghost_idxIDs(path), k-1) && m.Fseen == vcSeqAt(ghost_idxSeen(path), k-1)))
+	}
+	return true
+}
+
+//@ ext (*encoding/gob.Decoder).Decode(d *gob.Decoder, v any) (err error)
+//@   requires d != nil
+//@   modifies ghost_decpos(d)
+//@   attr havoc-pointee=1
+//@   ensures err == nil ==> ghost_decpos(d) == old(ghost_decpos(d)) + 1 && old(ghost_decpos(d)) < ghost_items(ghost_decpath(d)) && spec_decoded(ghost_decpath(d), old(ghost_decpos(d)), v)
+//@   ensures err != nil ==> ghost_decpos(d) == old(ghost_decpos(d))
+//@   ensures err == io.EOF ==> old(ghost_decpos(d)) == ghost_items(ghost_decpath(d))
+
+// The pooled reader reads from the reader it was reset to (sync.Pool and bufio.Reader.Reset: assumed).
+//@ func (*Store).getPooledReader
 //@   trusted
-//@   requires mb.store != nil && !mb.indexLoaded
+//@   ensures ret != nil && ghost_rpath(ret) == ghost_rpath(r)
+//@ func (*Store).putPooledReader
+//@   trusted
+
+// readIndex: a missing index is an empty mailbox; otherwise the list is rebuilt from the index file —
+// the mailbox name first, then one entry per record, in order — and every entry points back to this
+// mailbox.
+//@ func (*mbox).readIndex
+//@   requires mb.store != nil && !mb.indexLoaded && spec_listOK(mb) && len(mb.messages) == 0 && cap(mb.messages) == 0
 //@   modifies mb.messages, mb.indexLoaded, mb.name
 //@   ensures ret != nil ==> !mb.indexLoaded
-//@   ensures ret == nil ==> spec_loaded(mb) && (vcFresh(mb.messages) || len(mb.messages) == 0)
-//@   ensures ret == nil ==> forall i int :: { mb.messages[i] } 0 <= i && i < len(mb.messages) ==> vcFresh(mb.messages[i])
+//@   ensures[loaded C10 C07] ret == nil ==> spec_loaded(mb) && (vcFresh(mb.messages) || len(mb.messages) == 0)
+//@   ensures[entriesFresh] ret == nil ==> forall i int :: { mb.messages[i] } 0 <= i && i < len(mb.messages) ==> vcFresh(mb.messages[i])
+//@   ensures[nameRestored C10] ret == nil && ghost_exists(mb.indexPath) ==> mb.name == ghost_idxName(mb.indexPath)
+//@   loop 1: invariant dec != nil && ghost_decpath(dec) == mb.indexPath && ghost_decpos(dec) == len(mb.messages) + 1 && !mb.indexLoaded && ghost_exists(mb.indexPath)
+//@   loop 1: invariant spec_listOK(mb) && mb.name == ghost_idxName(mb.indexPath) && (vcFresh(mb.messages) || cap(mb.messages) == 0)
+//@   loop 1: invariant forall i int :: { mb.messages[i] } 0 <= i && i < len(mb.messages) ==> vcFresh(mb.messages[i])
+//@   loop 1: invariant[matchA] spec_entriesMatchA(mb)
+//@   loop 1: invariant[matchB] spec_entriesMatchB(mb)
+//@   serves C10 C07
 
 // Getters.
 //@ func (*Message).ID
@@ -116,7 +167,7 @@ func ghost_emitted(eb *extension.AsyncEventBroker[event.MessageMetadata]) vcSeq[
 //@   ensures[latest] ret1 == nil && id == "latest" && len(mb.messages) > 0 ==> ret0.(*Message) == mb.messages[len(mb.messages)-1]
 //@   ensures[notExist] mb.indexLoaded && (forall i int :: { mb.messages[i] } 0 <= i && i < len(mb.messages) ==> mb.messages[i].Fid != id) && !(id == "latest" && len(mb.messages) > 0) ==> ret1 == storage.ErrNotExist
 //@   ensures[onlyNotExist] mb.indexLoaded && ret1 != nil ==> ret1 == storage.ErrNotExist
-//@   ensures spec_mbInv(mb)
+//@   ensures (ret1 == nil || mb.indexLoaded) ==> spec_mbInv(mb)
 //@   loop 1: invariant 0 <= ridx && ridx <= len(mb.messages) && spec_loaded(mb)
 //@   loop 1: invariant forall i int :: { mb.messages[i] } 0 <= i && i < ridx ==> mb.messages[i].Fid != id
 //@   loop 1: decreases len(mb.messages) - ridx
@@ -154,6 +205,7 @@ func ghost_emitted(eb *extension.AsyncEventBroker[event.MessageMetadata]) vcSeq[
 //@      vcSeqAt(ghost_idxSeen(mb.indexPath), a-vcOff(mb.messages)) == vcSeqAt(vcElemsOf(mb.messages), a).Fseen
 //@   ensures[assumedGobRoundTrip2] ret == nil && len(mb.messages) > 0 ==> forall i int :: { vcSeqAt(ghost_idxIDs(mb.indexPath), i) } 0 <= i && i < len(mb.messages) ==>
 //@      vcSeqAt(ghost_idxIDs(mb.indexPath), i) == vcSeqAt(vcElemsOf(mb.messages), vcOff(mb.messages)+i).Fid
+//@   ensures[assumedGobRoundTripName] ret == nil && len(mb.messages) > 0 ==> ghost_idxName(mb.indexPath) == mb.name
 //@   ensures[assumedRemoveAllRemovesIndex] ret == nil && len(mb.messages) == 0 ==> !ghost_exists(mb.indexPath)
 //@   loop 1: invariant 0 <= ridx && ridx <= len(mb.messages) && writer != nil && file != nil && enc != nil && spec_listOK(mb)
 //@   loop 1: invariant ghost_wcount(writer) == 1 + ridx && ghost_wfile(writer) == file && ghost_fpath(file) == tmpPath && tmpPath == mb.indexPath + ".tmp" && ghost_encw(enc).(*bufio.Writer) == writer && ghost_exists(tmpPath)
@@ -194,14 +246,14 @@ func ghost_emitted(eb *extension.AsyncEventBroker[event.MessageMetadata]) vcSeq[
 // operation works from the index file alone (C10: a restart changes nothing).
 //@ func (*Store).mbox
 //@   requires fs.extHost != nil && fs.extHost.Events != nil
-//@   ensures ret != nil && vcFresh(ret) && ret.RWMutex != nil && ret.store == fs && ret.name == mailbox && !ret.indexLoaded && len(ret.messages) == 0
+//@   ensures ret != nil && vcFresh(ret) && ret.RWMutex != nil && ret.store == fs && ret.name == mailbox && !ret.indexLoaded && len(ret.messages) == 0 && cap(ret.messages) == 0
 //@   ensures[assumedPathsDistinct] spec_listOK(ret)
 //@   ensures[deterministicPaths C10] ret.indexPath == spec_indexPath(fs, mailbox)
 //@   serves C10 C07
 
 //@ func (*Store).mboxFromHash
 //@   requires fs.extHost != nil && fs.extHost.Events != nil && len(hash) >= 6
-//@   ensures ret != nil && vcFresh(ret) && ret.RWMutex != nil && ret.store == fs && !ret.indexLoaded && len(ret.messages) == 0
+//@   ensures ret != nil && vcFresh(ret) && ret.RWMutex != nil && ret.store == fs && !ret.indexLoaded && len(ret.messages) == 0 && cap(ret.messages) == 0
 //@   ensures[assumedPathsDistinct] spec_listOK(ret)
 //@   serves C10 C07
 
